@@ -92,6 +92,13 @@ def handle : List Sx → Sx
     match sc.toBool?, parseOpd r, parseOpd x with
     | some sc, some r, some x => out (matrix3Mul sc r x)
     | _, _, _ => err "operand"
+  | [.atom "inplace", .atom k, .list [a, b], f] =>
+    let kind : Option InPlace := match k with
+      | "number" => some .number | "merge" => some .merge | "divMerge" => some .divMerge
+      | "pipeMerge" => some .pipeMerge | "matmul" => some .matmul | "matdiv" => some .matdiv | _ => none
+    match kind, parseOpd a, parseOpd b, parseFail f with
+    | some k, some a, some b, some f => out (runInPlace k a b f)
+    | _, _, _, _ => err "operand"
   | [.atom "tree", e] =>
     match parseExpr e with
     | some e => out (e.eval.map fun o => (o.shape, o.mask))
